@@ -122,6 +122,9 @@ pub fn generate(seed: u64, tier: &str, sink: &mut Sink) {
     }
     // ---- the decision as send() uses it: per hop of a redirect chain (dial peer, target form, Host)
     crate::p_c09::generate_chains(seed ^ 0xC11C, if thorough { 3000 } else { 250 }, true, false, sink);
+    // … and when the selected proxy cannot be reached: the decision stands, nothing else is dialled instead
+    // (seed C11-seed10; the cases are C08's)
+    crate::p_c08::proxy_unreachable_cases(sink);
     // ---- from_env: assignments of the eight variables
     let proxy_vals: [Option<&str>; 7] = [None, Some(""), Some("  "), Some("http://env-h.test:8080"), Some("https://env-s.test"), Some("socks5://socks.test:1080"), Some("not a url")];
     let np_vals: [Option<&str>; 11] = [None, Some(""), Some("*"), Some(" * "), Some("a.b,ab"), Some(" a.b , .ab ,, B "), Some("A.B"), Some(".b"), Some("localhost, "), Some("., a.b"), Some("[::1], [FD00::12]")];
